@@ -53,7 +53,7 @@ Decode(r, o) ==
 EqRatC(c, num, den) ==
   IF den = 0 THEN c[1][1] = 0 /\ c[2][1] = 0
   ELSE c[1][1] * den = c[1][2] * num[1] /\ c[2][1] * den = c[2][2] * num[2]
-IsRatC(c) == /\ c \in Seq(Seq(Int)) /\ Len(c) = 2 /\ Len(c[1]) = 2 /\ Len(c[2]) = 2
+IsRatC(c) == Len(c) = 2 /\ Len(c[1]) = 2 /\ Len(c[2]) = 2 /\ c[1][2] > 0 /\ c[2][2] > 0
 
 (* condition_covariance(Phi, gamma) = (Phi + gamma tr(Phi)/D I) / (1 + gamma), gamma = g[1]/g[2] *)
 \* element (a, b) of the result as <<numerator, denominator>>:
